@@ -26,6 +26,7 @@ fn main() {
     let rest = &args[1..];
     let code = match id.as_str() {
         "C01" => main_for::<props::c01::C01>(rest),
+        "C02" => main_for::<props::c02::C02>(rest),
         _ => {
             eprintln!("unknown property {id}");
             2
